@@ -12,7 +12,7 @@ RULE = (
     "derivative is w.r.t. raw coordinates; for SE3 it is taken along the manifold: J_full * operand.jacobian_boxplus() == "
     "d/d(delta) op(operand [+] delta) for all 7 output rows. Non-trivial = an operand outside the suite box [0,1)^k."
 )
-BUDGET = {"quick": 16 * 2500, "thorough": 16 * 100000}
+BUDGET = {"quick": 16 * 5000, "thorough": 16 * 100000}
 TOLERANCES = {
     "AD": "1e-11*(1 + S*[translation row]*[rotation column])",
     "CD": "1e-8*(1+S) translation rows, 1e-8 rotation rows",
@@ -100,9 +100,6 @@ def _align_out(k, out_kind, v, v0):
 def check(case, ctx):
     k, m = case["k"], case["m"]
     a, b, pt = gs.mk_pose(case["a"]), gs.mk_pose(case["b"]), gs.mk_pose(case["pt"])
-    ra, rb, rpt = gs.stored(a), gs.stored(b), gs.stored(pt)
-    n, c, p = _expected_shapes(k)
-    pk = R.POINT_OF[k]
     S_ = gs.max_trans(case["a"], case["b"], case["pt"])
     ctx.nontrivial(any(gs.outside_suite_box(case[x]) for x in ("a", "b", "pt")))
     ctx.event("%s:%s" % (k, m))
@@ -113,6 +110,33 @@ def check(case, ctx):
             ctx.event("w==0")
     if S_ > 1e3:
         ctx.event("S>1e3")
+    if _run(case, ctx, a, b, pt, S_, ""):
+        return
+    # history: the same pose objects modified in place (poses are ndarrays; normalize() does exactly that) - the
+    # Jacobians must follow the current contents, not anything remembered from the calls above
+    for obj in (a, b, pt):
+        arr = np.asarray(obj)
+        arr[0] = 0.5 * arr[0] - 0.75
+        arr[1] = -arr[1]
+    if k == "se3":
+        np.asarray(a)[3:] *= -3.0
+        a.normalize()
+        np.asarray(b)[3:] = np.asarray(b)[3:][[1, 2, 0, 3]] * 0.5
+        b.normalize()
+    elif k == "se2":
+        np.asarray(a)[2] *= -0.5
+        np.asarray(b)[2] = 0.25 * np.asarray(b)[2] + 0.5
+    S2 = max(S_, 1.0)
+    _run(case, ctx, a, b, pt, S2, " (after in-place change)")
+
+
+def _run(case, ctx, a, b, pt, S_, label):
+    """Shapes, compact rows and exact-derivative check at the current contents of a, b, pt.  Returns True on failure."""
+    k, m = case["k"], case["m"]
+    second = bool(label)
+    ra, rb, rpt = gs.stored(a), gs.stored(b), gs.stored(pt)
+    n, c, p = _expected_shapes(k)
+    pk = R.POINT_OF[k]
     bits0 = (gs.bits(a), gs.bits(b), gs.bits(pt))
 
     # ---- documented shapes and the compact-rows relation, all 12 methods
@@ -155,17 +179,18 @@ def check(case, ctx):
         rowT = np.array([1.0 if i < p else 0.0 for i in range(n)])
         colR = np.array([0.0 if j < p else 1.0 for j in range(c)]) if k in ("se2", "se3") else np.zeros(c)
         tol = 1e-11 * (1.0 + S_ * rowT[:, None] * colR[None, :])
-        if ctx.check_close("boxplus-vs-AD", "%s.jacobian_boxplus vs AD" % k, J, Jref, tol):
-            return
+        if ctx.check_close("boxplus-vs-AD", "%s.jacobian_boxplus vs AD%s" % (k, label), J, Jref, tol):
+            return True
         base = np.asarray(a, dtype=float)
 
         def f(dl):
             return _align_out(k, k, np.asarray(a + dl, dtype=float), base)
 
-        Jcd = _richardson(f, c)
-        tol1 = 1e-8 * (1.0 + S_ * rowT[:, None] * np.ones(c)[None, :])
-        if ctx.check_close("boxplus-vs-CD", "%s.jacobian_boxplus vs CD" % k, J, Jcd, tol1):
-            return
+        if not second:
+            Jcd = _richardson(f, c)
+            tol1 = 1e-8 * (1.0 + S_ * rowT[:, None] * np.ones(c)[None, :])
+            if ctx.check_close("boxplus-vs-CD", "%s.jacobian_boxplus vs CD" % k, J, Jcd, tol1):
+                return True
     else:
         # which operand is perturbed, and its kind
         if m in ("oplus_self", "ominus_self", "point_self", "inverse"):
@@ -202,26 +227,27 @@ def check(case, ctx):
         colR = np.array([0.0 if j < R.PDIM[xk] else 1.0 for j in range(cx)]) if xk in ("se2", "se3") else np.zeros(cx)
         # d(translation out)/d(translation in) is O(1) except for ominus/inverse wrt a pose whose own translation enters
         tol = 1e-11 * (1.0 + S_ * rowT[:, None] * colR[None, :])
-        if ctx.check_close("jacobian-vs-AD", "%s.%s vs AD" % (k, m), Jm, Jref, tol):
-            return
+        if ctx.check_close("jacobian-vs-AD", "%s.%s vs AD%s" % (k, m, label), Jm, Jref, tol):
+            return True
         if xk == "se2":
             # additionally the literal raw-coordinate statement for SE(2): d op / d(x, y, theta)
             draw = seeds(3)
             outr = fref([rx[0] + draw[0], rx[1] + draw[1], rx[2] + draw[2]])
             if ctx.check_close("jacobian-vs-AD", "%s.%s vs AD (raw coordinates)" % (k, m), J, jacobian(outr, 3), tol):
-                return
+                return True
 
         def f(dl):
             return _align_out(k, out_kind, fcode(x0 + dl), v0)
 
-        Jcd = _richardson(f, cx)
-        tol1 = 1e-8 * (1.0 + S_ * rowT[:, None] * np.ones(cx)[None, :])
-        if ctx.check_close("jacobian-vs-CD", "%s.%s vs CD" % (k, m), Jm, Jcd, tol1):
-            return
+        if not second:
+            Jcd = _richardson(f, cx)
+            tol1 = 1e-8 * (1.0 + S_ * rowT[:, None] * np.ones(cx)[None, :])
+            if ctx.check_close("jacobian-vs-CD", "%s.%s vs CD" % (k, m), Jm, Jcd, tol1):
+                return True
 
     if (gs.bits(a), gs.bits(b), gs.bits(pt)) != bits0:
         return ctx.fail("operand-mutated", "a Jacobian method changed its operands")
-
+    return False
 
 def _richardson(f, c):
     def D(h):
